@@ -17,6 +17,7 @@ from lxml import etree
 sys.path.insert(0, str(Path(__file__).resolve().parent))
 import common
 import tablelib as tl
+import tablegrp as tg
 
 T = tl.T
 CELL_TAGS = (T + 'table-cell', T + 'covered-table-cell')
@@ -40,8 +41,12 @@ def _pos(el, siblings):
 def dump(table):
     """(tmap, cmap, [(key, pos, rmap, [(cell key, cell pos)])], [(column key, pos)])"""
     te = _el(table)
-    rows_el = [ch for ch in te if ch.tag == T + 'table-row']
-    cols_el = [ch for ch in te if ch.tag == T + 'table-column']
+    # the rows / columns odfdo sees: direct children and children of the four wrapper elements, in document order
+    vis = []
+    for ch in te:
+        vis += list(ch) if ch.tag in tg.WRAP else [ch]
+    rows_el = [ch for ch in vis if ch.tag == T + 'table-row']
+    cols_el = [ch for ch in vis if ch.tag == T + 'table-column']
     tm = list(getattr(table, '_tmap')); cm = list(getattr(table, '_cmap'))
     ind = getattr(table, '_indexes')
     tc = []
@@ -146,10 +151,15 @@ def g_live(rng, nodes):
 def g_opaque(rng, nodes):
     cols, rows = tl.shape_of(nodes)
     y = tl.pick_pos(rng, [r for r, _ in rows], allow_neg=False); x = tl.pick_pos(rng, [r for r, _ in cols], allow_neg=False)
-    k = rng.choice(['rstrip', 'optimize_width', 'transpose', 'row_rstrip'])
+    k = rng.choice(['rstrip', 'optimize_width', 'transpose', 'row_rstrip', 'row_rstrip', 'set_span', 'set_span', 'del_span', 'live_col'])
     if k == 'rstrip': return [k, rng.random() < 0.5]
     if k in ('optimize_width', 'transpose'): return [k]
-    if k == 'row_rstrip': return [k, y]
+    if k == 'row_rstrip': return [k, y, rng.random() < 0.3]
+    if k == 'set_span':
+        x2 = tl.pick_pos(rng, [r for r, _ in cols], allow_neg=False); y2 = tl.pick_pos(rng, [r for r, _ in rows], allow_neg=False)
+        return [k, [min(x, x2), min(y, y2), min(max(x, x2), x + 3), min(max(y, y2), y + 3)], rng.random() < 0.3]
+    if k == 'del_span': return [k, x, y]
+    if k == 'live_col': return [k, rng.choice([1, 1, 2]), rng.choice([None, 'cs']), rng.choice([None, 1, 2, 3])]
     if k == 'row_append': return [k, y, tl.g_cellspec(rng)]
     if k in ('row_set', 'row_insert'): return [k, y, x, tl.g_cellspec(rng)]
     return [k, y, x]
@@ -200,7 +210,9 @@ def g_obs(rng, nodes):
 class Runner(tl.Driver):
     """one history on the real implementation; the table lives inside a spreadsheet Document"""
 
-    def __init__(self, odfdo, init_xml, in_document=True):
+    def __init__(self, odfdo, init_xml, in_document=True, wrapped=False):
+        self.wrapped = wrapped          # the table holds header-rows / rows / columns wrappers or groups: judged on the VISIBLE table
+        self.groups = {}
         super().__init__(odfdo, init_xml)
         self.doc = None
         if in_document:
@@ -210,6 +222,14 @@ class Runner(tl.Driver):
         self.records, self.terms = [], []
         self.pre_dump = dump(self.table)
         self.obs_gen = None          # generation: draws the observation reads on the shape AFTER the step
+
+    def abs_of(self, xml):
+        if self.wrapped:
+            return tg.flat(tg.abs_xml2(xml, self.intern, self.groups))
+        return tl.abs_xml(xml, self.intern)
+
+    def abs(self):
+        return self.abs_of(tl.timed(self.table.serialize))
 
     def on(self, table):
         """temporarily direct the inherited apply/read to another table object"""
@@ -275,7 +295,15 @@ class Runner(tl.Driver):
             if k == 'rstrip': tl.timed(table.rstrip, aggressive=o[1])
             elif k == 'optimize_width': tl.timed(table.optimize_width)
             elif k == 'transpose': tl.timed(table.transpose)
-            elif k == 'row_rstrip': tl.timed(tl.timed(table.get_row, o[1], clone=False).rstrip)
+            elif k == 'row_rstrip': tl.timed(tl.timed(table.get_row, o[1], clone=False).rstrip, aggressive=o[2])
+            elif k == 'set_span': self.last_ret = tl.timed(table.set_span, tuple(o[1]), merge=o[2])
+            elif k == 'del_span': self.last_ret = tl.timed(table.del_span, (o[1], o[2]))
+            elif k == 'live_col':
+                c = tl.timed(table.append_column, tl.mk_column(od, o[1], o[2]))
+
+                def setrep():
+                    c.repeated = o[3]
+                tl.timed(setrep)
             elif k == 'row_append': tl.timed(tl.timed(table.get_row, o[1], clone=False).append_cell, tl.mk_cell(od, o[2]))
             elif k == 'row_set': tl.timed(tl.timed(table.get_row, o[1], clone=False).set_cell, o[2], tl.mk_cell(od, o[3]))
             elif k == 'row_insert': tl.timed(tl.timed(table.get_row, o[1], clone=False).insert_cell, o[2], tl.mk_cell(od, o[3]))
@@ -323,9 +351,33 @@ class Runner(tl.Driver):
                 a2, traised = self.apply(st['op'])
             coq_op = 'CModel (BMut (%s))' % tl.c_op(a)
         elif 'opaque' in st:
+            k_ = st['opaque'][0]
+            span = None
+            if k_ == 'del_span':
+                # the span carried by the addressed cell of the pre-state (read on a fresh parse: no cache of the live table is touched)
+                try:
+                    c0 = self.fresh_of(t).get_cell((st['opaque'][1], st['opaque'][2]))
+                    span = (c0.get_attribute_integer('table:number-columns-spanned'), c0.get_attribute_integer('table:number-rows-spanned'))
+                except Exception:
+                    span = None
+            self.last_ret = None
             raised = self.apply_opaque(st['opaque'], t)
+            ret = self.last_ret
             traised = self.apply_opaque(st['opaque'], twin)
-            coq_op = 'CXform' if st['opaque'][0] in ('rstrip', 'optimize_width', 'transpose') and not raised else 'COpaque'
+            tret = self.last_ret
+            coq_op = 'COpaque'
+            if not raised and k_ in ('set_span', 'del_span'):
+                st['returned'] = ret
+                if ret != tret:
+                    raised = 'returned %r, the same call on a fresh parse of the table returned %r' % (ret, tret); traised = None
+            if not raised:
+                if k_ == 'set_span' and isinstance(ret, bool):
+                    coq_op = 'CSetSpan (%d) (%d) (%d) (%d) %s' % (tuple(st['opaque'][1]) + (c_b(ret),))
+                elif k_ == 'del_span' and isinstance(ret, bool) and span is not None:
+                    coq_op = 'CDelSpan (%d) (%d) (%d) (%d) %s' % (st['opaque'][1], st['opaque'][2], span[0] or 0, span[1] or 0, c_b(ret))
+                if k_ in ('rstrip', 'optimize_width', 'transpose'): coq_op = 'CXform'
+                elif k_ == 'row_rstrip' and not st['opaque'][2]: coq_op = 'CRowRstrip (%d)' % st['opaque'][1]
+                elif k_ == 'live_col': coq_op = 'CLiveCol %d%%nat' % (st['opaque'][3] or 0)
             a = None
         elif 'live' in st:
             raised = self.apply_live(st['live'], t)
@@ -337,9 +389,11 @@ class Runner(tl.Driver):
             tout, traised = self.try_read(st['read'], twin)
             coq_op = 'CModel (BRead (%s))' % c_bread(st['read'])
             a = None
+        if self.wrapped:
+            coq_op = 'COpaque'      # no model step on tables with wrappers / groups: coherence, twin, fresh parse, expansion, reload
         post = self.abs()
         postd = dump(t)
-        twin_nodes = tl.abs_xml(tl.timed(twin.serialize), self.intern)
+        twin_nodes = self.abs_of(tl.timed(twin.serialize))
         live, fresh = [], []
         obs_error = None
         if 'obs' not in st:
@@ -357,7 +411,7 @@ class Runner(tl.Driver):
         rel = None
         if st.get('reload') and not raised and self.doc is not None:
             t2 = self.reload()
-            rel_nodes = tl.abs_xml(tl.timed(t2.serialize), self.intern)
+            rel_nodes = self.abs_of(tl.timed(t2.serialize))
             rl = [(q, self.try_read(q, t2)[0]) for q in st.get('obs', [])]
             rel = (rel_nodes, rl)
         rec = dict(step=st, abstract_op=a, raised=raised, twin_raised=traised, pre=pre_nodes, post=post, post_after_reads=after_nodes,
@@ -416,7 +470,7 @@ def run_shards_retry(header, terms, checker, tag, shard):
 
 def run_case_once(odfdo, case):
     try:
-        r = Runner(odfdo, case['init_xml'])
+        r = Runner(odfdo, case['init_xml'], wrapped=(case.get('kind') == 'wrapped'))
     except Exception as e:
         return dict(term=None, error='initial table: %r' % (e,), records=[])
     try:
@@ -454,11 +508,13 @@ def init_xml_of(odfdo, rng, kind, maxw, maxh):
         return odfdo.Table('t', width=rng.randint(1, 4), height=rng.randint(1, 4)).serialize()
     if kind == 'rle':
         return tl.g_rle_table(rng, maxw, maxh)
+    if kind == 'wrapped':
+        return tg.g_wrapped_table(rng, maxw, maxh)
     s = tl.sample_tables()
     return s[rng.randrange(len(s))][1] if s else '<table:table table:name="t"/>'
 
 
-def gen_case(odfdo, seed, kind, nsteps, kinds=tl.OPS_CORE, maxw=8, maxh=8, reload_every=3, p_read=0.5, p_live=0.14, p_opaque=0.06):
+def gen_case(odfdo, seed, kind, nsteps, kinds=tl.OPS_CORE, maxw=8, maxh=8, reload_every=3, p_read=0.5, p_live=0.14, p_opaque=0.1):
     """state-dependent generation and execution in one pass: before each mutation, with probability p_read, one or two
     cache-filling reads (get_row / get_cell with clone true or false, traverse, get_column, columns, get_value, ...);
     positions around the run boundaries of the CURRENT state.  Returns (case JSON, result)."""
@@ -466,12 +522,13 @@ def gen_case(odfdo, seed, kind, nsteps, kinds=tl.OPS_CORE, maxw=8, maxh=8, reloa
     init = init_xml_of(odfdo, rng, kind, maxw, maxh)
     case = dict(kind=kind, init_xml=init, steps=[])
     try:
-        r = Runner(odfdo, init)
+        r = Runner(odfdo, init, wrapped=(kind == 'wrapped'))
     except Exception as e:
         return case, dict(term=None, error='initial table: %r' % (e,), records=[])
     nodes = r.init_nodes
     r.obs_gen = lambda post: g_obs(rng, post)
     n = 0
+    spans = []
     try:
         for _ in range(nsteps):
             todo = []
@@ -479,7 +536,10 @@ def gen_case(odfdo, seed, kind, nsteps, kinds=tl.OPS_CORE, maxw=8, maxh=8, reloa
                 todo += [dict(read=g_fill_read(rng, nodes)) for _ in range(rng.choice([1, 1, 2]))]
             x_ = rng.random()
             if x_ < p_opaque:
-                todo.append(dict(opaque=g_opaque(rng, nodes)))
+                o_ = g_opaque(rng, nodes)
+                if o_[0] == 'del_span' and spans and rng.random() < 0.7:
+                    o_ = ['del_span'] + list(rng.choice(spans))       # a span an earlier set_span of this history has made
+                todo.append(dict(opaque=o_))
             elif x_ < p_opaque + p_live:
                 todo.append(dict(live=g_live(rng, nodes)))
             else:
@@ -491,6 +551,8 @@ def gen_case(odfdo, seed, kind, nsteps, kinds=tl.OPS_CORE, maxw=8, maxh=8, reloa
                 case['steps'].append(st)
                 rec = r.step(st)
                 nodes = rec['post_after_reads']
+                if st.get('opaque', [None])[0] == 'set_span' and st.get('returned') is True:
+                    spans.append(tuple(st['opaque'][1][:2]))
                 if rec['raised']:
                     stop = True; break
             if stop:
